@@ -204,10 +204,22 @@ def make_server(log):
 
 def run_case(case) -> CaseResult:
     tmp: List[str] = []
+    home = os.environ.get('HOME')
 
     try:
+        if case.get('khempty'):
+            # an account without a ~/.ssh/known_hosts of its own
+            d = tempfile.mkdtemp(prefix='c04-home-')
+            tmp.append(d)
+            os.environ['HOME'] = d
+
         return _run_case(case, tmp)
     finally:
+        if home is None:
+            os.environ.pop('HOME', None)
+        else:
+            os.environ['HOME'] = home
+
         for d in tmp:
             shutil.rmtree(d, ignore_errors=True)
 
@@ -302,6 +314,12 @@ def _run_case(case, tmp: List[str]) -> CaseResult:
             kh_arg.match(ph, pa, pp if pp != 22 else None)
 
     copts = {'known_hosts': kh_arg, 'host': host, 'port': port}
+
+    if case.get('khempty'):
+        # trust data that is there and says nothing: no key, no CA
+        copts['known_hosts'] = {'bytes': b'', 'list': [], 'tuple': ()}[
+            case['khempty']]
+        labels.add('empty-trust:' + case['khempty'])
     if alias:
         copts['host_key_alias'] = alias
 
@@ -672,7 +690,24 @@ def leak_cases(tier: str):
                                         'corrupt': False, 'via_ref': False}}
 
 
+def empty_cases(tier: str):
+    for form in ('bytes', 'list', 'tuple'):
+        for via in ('direct', 'tunnel'):
+            for ident in ({'kind': 'plain', 'key': 'k1'},
+                          {'kind': 'cert', 'key': 'ku', 'ca': 'ca1',
+                           'type': 'host', 'window': 'valid',
+                           'principals': 'host', 'corrupt': False,
+                           'via_ref': False},
+                          {'kind': 'liar', 'key': 'r1'}):
+                yield {'lines': [], 'alias': None, 'port': 22, 'via': via,
+                       'shared': [], 'khempty': form, 'identity': ident}
+
+
 FAMILIES = [
+    Family('empty', run_case, enumerate=empty_cases, exhaustive=True,
+           required={'all': ['empty-trust:bytes', 'empty-trust:list',
+                             'empty-trust:tuple', 'rejected']},
+           case_timeout=120),
     Family('trust', run_case, strategy=strategy,
            budget={'quick': 2500, 'thorough': 40000},
            required={'all': ['accepted', 'rejected', 'identity:plain',
